@@ -4,9 +4,9 @@ OPS = dict(new=7, write_map=1, write_unmap=2, abort=3, accept=4, read_map=5, rea
 
 def step(op, R, solver="kissat", timeout=900, tiers=("quick", "thorough"), extra=(), tag=""):
     return H("step_%s_R%d%s" % (op, R, tag), "harness/channel/step.c", env=ENV,
-             defines=["OP=%d" % OPS[op], "R=%d" % R] + list(extra), unwind=R + 2, solver=solver,
+             defines=["OP=%d" % OPS[op], "R=%d" % R] + list(extra), unwind=R + 2, unwindset={"same_shared.0": 9}, solver=solver,
              timeout=timeout, tiers=tiers, ignore=[r"pointer_arithmetic.*pointer NULL in out \+"],
-             what="induction step: arbitrary 64-bit INV pre-state, one real channel_%s, INV + unread-list refinement after" % op,
+             what="induction step: arbitrary 64-bit INV pre-state, one real channel_%s, INV + unread-list refinement after; shared state changes only under the channel lock" % op,
              bounds=dict(readers=R, capacity="1..2^40", lap_counter="<2^62", state="all fields symbolic 64-bit"))
 
 def hist(K, capmax, R=2, timeout=3000, solver="cadical"):
